@@ -1,6 +1,6 @@
 SPECIFICATION SeededSpec
 CONSTANTS
-  MaxCommits = 7
+  MaxCommits = 8
   MaxOps = 3
   MaxActs = 2
   EmptyPolicies = {"keep", "all"}
